@@ -734,6 +734,10 @@ func isFreshExpr(e ast.Expr) bool {
 		if id, ok := fun.(*ast.Ident); ok && (id.Name == "new" || strings.HasPrefix(id.Name, "New") || strings.HasPrefix(id.Name, "new")) {
 			return true // new(T) or a constructor of the own package: the result is not shared yet
 		}
+		// options.Apply(&T{...}, opts) returns its (fresh) first argument
+		if se, ok := fun.(*ast.SelectorExpr); ok && se.Sel.Name == "Apply" && len(x.Args) >= 1 && isFreshExpr(x.Args[0]) {
+			return true
+		}
 	}
 	return false
 }
